@@ -57,6 +57,20 @@ pub fn run(rep: &mut Report, thorough: bool) {
         if ci == 0 {
             crate::props::c07::source_mac_stage(cfg, rep, "C06");
         }
+        // SYNs as a NIC delivers them: a bare IPv4 SYN is 54 bytes, below the 60-byte Ethernet
+        // minimum, so it arrives zero-padded; any frame may carry a trailer behind the IP datagram
+        {
+            let fl: [u16; 6] = [F_SYN, F_SYN | F_ECE, F_SYN | F_PSH | F_URG, F_SYN | F_CWR, F_SYN | F_ACK, F_SYN | F_CWR | F_ECE];
+            let tr: Vec<usize> = (1..=18).chain([46, 100]).collect();
+            let dims = [fl.len() as u64, tr.len() as u64, 2, 2, 2];
+            sweep_frames(rep, cfg, &format!("syn-link-trailer-{}", tag), "6 flag sets x trailer length 1..18, 46, 100 x trailer byte {00, ff} x payload {none, 4 bytes} x {v4,v6}", product(&dims), |i| {
+                let d = unrank(i, &dims);
+                let f = flow(d[4] == 1, 40000, 80);
+                let mut fr = f.tcp(0x01020304, 0, fl[d[0] as usize], if d[3] == 1 { b"data" } else { b"" });
+                fr.extend(std::iter::repeat(if d[2] == 1 { 0xffu8 } else { 0 }).take(tr[d[1] as usize]));
+                fr
+            });
+        }
         // the other fixed fields of the segment: urgent pointer x window x checksum value next to
         // every flag set (a SYN|URG whose urgent pointer lies beyond its payload is still a SYN)
         {
